@@ -233,10 +233,12 @@ func CompareLex(s1 string, s2 string) int {
 	if s1 == s2 {
 		return 0
 	}
-	if strings.Contains(s1, s2) {
+	// A string that is a proper prefix of the other one sorts first. (Being a substring anywhere
+	// else says nothing about the order: "ab" contains "b" but sorts before it.)
+	if strings.HasPrefix(s1, s2) {
 		return 1
 	}
-	if strings.Contains(s2, s1) {
+	if strings.HasPrefix(s2, s1) {
 		return -1
 	}
 
